@@ -36,6 +36,7 @@ type c25obs struct {
 	Calls  []string `json:"calls"`
 	Late   int      `json:"late_calls"` // calls seen after Close
 	Leaks  []string `json:"leaks"`      // goroutines still inside the opcua packages after Close (client process)
+	Works  int      `json:"works"`      // a request sent after the states settled: 1 answered, 0 failed, -1 not tried
 	Err    string   `json:"err,omitempty"`
 }
 
@@ -44,14 +45,21 @@ type c25child struct {
 	States    []int    `json:"states"`
 	CloseNano int64    `json:"close_nano"`
 	Leaks     []string `json:"leaks"`
+	Works     int      `json:"works"`
 	Err       string   `json:"err,omitempty"`
 }
 
 func popb(s *string) bool {
+	return popc(s) == '1'
+}
+
+// popc pops the next scripted outcome: '1' success (also when the list is exhausted), '0' the call is answered with a
+// fault, '2' the connection is dropped instead of answering.
+func popc(s *string) byte {
 	if len(*s) == 0 {
-		return true
+		return '1'
 	}
-	b := (*s)[0] == '1'
+	b := (*s)[0]
 	*s = (*s)[1:]
 	return b
 }
@@ -87,8 +95,13 @@ func c25Run(cs *Case) c25obs {
 			}
 			if injected && len(req.NodesToRead) == 1 && req.NodesToRead[0].NodeID.IntID() == 2255 {
 				rec("N")
-				if !popb(&namespaces) {
+				switch popc(&namespaces) {
+				case '0':
 					return scriptsrv.Fault(r, ua.StatusBadNodeIDUnknown), true
+				case '2':
+					// the connection dies while the client waits for this answer
+					go c.Close()
+					return nil, true
 				}
 			}
 			return nil, false
@@ -154,7 +167,7 @@ func c25Run(cs *Case) c25obs {
 		}
 	}
 	mu.Unlock()
-	ob.States, ob.Leaks, ob.Err = ch.States, ch.Leaks, ch.Err
+	ob.States, ob.Leaks, ob.Err, ob.Works = ch.States, ch.Leaks, ch.Err, ch.Works
 	if ob.Leaks == nil {
 		ob.Leaks = []string{}
 	}
@@ -194,6 +207,23 @@ func c25Client(cs *Case) c25child {
 			stable++
 		} else {
 			stable, last = 0, cur
+		}
+	}
+	// "returns to Connected with working requests": once the states have settled on Connected a request must be answered
+	ob.Works = -1
+	stMu.Lock()
+	lastState := -1
+	if len(states) > 0 {
+		lastState = states[len(states)-1]
+	}
+	stMu.Unlock()
+	if lastState == int(opcua.Connected) {
+		pctx, pcancel := context.WithTimeout(ctx, 4*time.Second)
+		_, err := c.Read(pctx, &ua.ReadRequest{NodesToRead: []*ua.ReadValueID{{NodeID: ua.NewNumericNodeID(8, 1), AttributeID: ua.AttributeIDValue}}})
+		pcancel()
+		ob.Works = 0
+		if err == nil {
+			ob.Works = 1
 		}
 	}
 	if cs.P["close"] == 1 {
@@ -252,6 +282,12 @@ func c25Gen(r *rng.R, i int) *Case {
 		return s
 	}
 	c.S["dials"], c.S["activates"], c.S["creates"], c.S["namespaces"] = bits(2), bits(2), bits(2), bits(2)
+	// one case in four: the connection dies during a namespace read of the reconnect
+	if r.Intn(4) == 0 {
+		ns := []byte(c.S["namespaces"] + "0")
+		ns[r.Intn(len(ns))] = '2'
+		c.S["namespaces"] = string(ns)
+	}
 	return c
 }
 
@@ -280,6 +316,10 @@ func c25Main(seed uint64, n int, replay string) {
 	} else {
 		// the witness of the refuted transition first
 		cases = append(cases, &Case{ID: 0, Op: "c25", P: map[string]int{"auto": 1}, S: map[string]string{"err": "subscription"}})
+		// a second drop exactly during the NamespaceArray read of the reconnect, session kept and session lost
+		cases = append(cases, &Case{ID: 1, Op: "c25", P: map[string]int{"auto": 1}, S: map[string]string{"err": "eof", "namespaces": "2"}})
+		cases = append(cases, &Case{ID: 2, Op: "c25", P: map[string]int{"auto": 1, "close": 1}, S: map[string]string{"err": "eof", "activates": "0", "namespaces": "21"}})
+		cases = append(cases, &Case{ID: 3, Op: "c25", P: map[string]int{"auto": 1}, S: map[string]string{"err": "eof", "namespaces": "0"}})
 		for i := len(cases); i < n; i++ {
 			cases = append(cases, c25Gen(r, i))
 		}
